@@ -147,6 +147,7 @@ PROPS["C07"] = {
 
 PROPS["C08"] = {
     "pkg": "c08",
+    "variants": [{"name": "main"}, {"name": "conc", "race": True, "run": "^TestConcurrent$", "shards": {"thorough": 4}}],
     "technique": "property-based testing with scripted fragmenting readers (metamorphic: every fragmentation, buffer and destination kind gives the per-line oracle's call sequence) and a model-based state machine for DefaultStorage; native fuzzing in the thorough tier",
     "level_text": ("Generated-input search: multi-line files (LF/CRLF, missing final newline, long lines, blank and comment lines) are delivered through "
                    "scripted readers (1-byte reads, (0,nil) reads, data+EOF, large reads) into a FuncSet, a recording HandleSet or a DefaultStorage with "
